@@ -271,7 +271,15 @@ NEGATION_PAIRS = [("assert_equal", "assert_not_equal"), ("assert_in", "assert_no
                   ("assert_output_regex", "assert_not_output_regex"), ("assert_type", "assert_not_type"),
                   ("assert_almost_equal", "assert_not_almost_equal")]
 
-DEFAULT_DELTA = float(rt.assert_equal.DELTA)
+DOCUMENTED_DELTA = 0.001        # "If delta is None, then the default Delta will be used (.001)"
+
+
+def code_delta(name="assert_equal"):
+    """the default the code under test actually uses (what the model is told)"""
+    return float(getattr(getattr(rt, name, rt.assert_equal), "DELTA", rt.assert_equal.DELTA))
+
+
+DEFAULT_DELTA = DOCUMENTED_DELTA
 
 
 _param_names = {}
@@ -301,7 +309,9 @@ def run_real(name, a, b=None, exact=False, delta=None, spelling="positional"):
         if name in UNARY:
             operands, extra = [a], {}
         elif name in EQUAL:
-            operands, extra = [a, b], {"exact_strings": exact, "delta": DEFAULT_DELTA if delta is None else delta}
+            operands, extra = [a, b], {"exact_strings": exact}
+            if delta is not None:
+                extra["delta"] = delta          # otherwise the assertion's own default is exercised
         elif name in OUTPUT:
             operands = [b, a] if name in ("assert_output_regex", "assert_not_output_regex") else [a, b]
             extra = {"exact_strings": exact}
